@@ -11,6 +11,7 @@ TRUSTED = [
  "extraction: ExtrOcamlBasic only (bool, option, unit, list, prod, sumbool, sumor mapped to OCaml types); nat, positive, Z stay extracted inductives; OCaml 4.13.1; ocaml/cosim.ml (parsing/printing/comparison)",
  "correspondence: the hand-written model coq/Model.v is tied to /repo by co-simulation on explored executions only: harness (Rust, /verif/harness) drives the real crate built with features verif_hooks,slow_assertions under a one-thread-at-a-time scheduler; hooks in /repo/src/verif_hooks.rs define the atomic segments",
  "modelled, not verified: tokio::sync::Mutex as a FIFO hand-off mutex, std::sync::Mutex, Arc strong counts, lru::LruCache order, std HashMap iteration order (oracle, validated as a permutation), FuturesUnordered (oracle: which per-entry future ran), tokio Instant arithmetic floor, Rust drop order/unwinding",
+ "second correspondence (C01, C02, C05, C14): coq/ExtractSpec.v extracts SeqRefine.spec_call / seq_call (same ExtrOcamlBasic directives) to spec.ml; ocaml/lincheck.ml (parsing, Wing-Gong search, comparison) decides whether recorded real-thread histories of the crate built WITHOUT hooks (smoke lin: stamps from one global atomic counter) are linearisable w.r.t. spec_call and replays the witness on seq_call; sampled histories only",
  "executed only by /verif/smoke (ordinary multi-threaded tests of the crate built without the hooks feature), never by the harness: tokio's blocking wait in ReplicaArc::blocking_lock_owned and RealTime::now",
  "not modelled separately (only exercised through the harness): public wrapper methods of lockable_hash_map.rs / lockable_lru_cache.rs / lockpool.rs, SyncLimit/AsyncLimit enums, borrowed vs owned variants, Never/InfallibleUnwrap, Debug impls",
 ]
@@ -32,13 +33,15 @@ prop("C01",
      [fam("nolimit","H",40000), fam("nolimit","L",40000), fam("pool","P",20000), fam("dfs-lock2","H",80000), fam("dfs-lock3","L",80000),
       fam("dfs-cancel","H",80000), fam("evict","L",20000,"monitor"), fam("stream","H",20000,"monitor"), fam("expiry","L",20000,"monitor"), fam("mix","L",20000,"monitor"), fam("fine-nolimit","H",40000), fam("fine-nolimit","L",40000), fam("fine-mix","H",40000), fam("wide","H",20000), fam("wide","L",20000)],
      cosim_ignore="order,stamp",
-     smoke=True)
+     smoke=True,
+     lin=True)
 prop("C02",
      ["C02_only_guard_ops_change_values", "C02_guard_op_is_local", "C02_new_guard_shows_stored_value", "C02_value_history", "C02_next_guard_sees_what_was_left", "C02_witness"],
      ["C02."],
      [fam("nolimit","H",1500), fam("nolimit","L",1500), fam("dfs-lock2","L",4000), fam("evict","H",800,"monitor"), fam("stream","L",800,"monitor"), fam("mix","L",800,"monitor"), fam("scale","L",2,"monitor"), fam("fine-nolimit","L",2000), fam("fine-mix","H",2000), fam("wide","L",600)],
      [fam("nolimit","H",40000), fam("nolimit","L",40000), fam("dfs-lock2","L",80000), fam("dfs-lock3","H",80000), fam("evict","H",20000,"monitor"), fam("stream","L",20000,"monitor"), fam("mix","L",20000,"monitor"), fam("scale","L",16,"monitor"), fam("scale","H",16,"monitor"), fam("fine-nolimit","L",40000), fam("fine-nolimit","H",40000), fam("fine-mix","H",40000), fam("fine-mix","L",40000), fam("wide","L",20000), fam("wide-evict","H",20000)],
-     cosim_ignore="order,stamp")
+     cosim_ignore="order,stamp",
+     lin=True)
 prop("C04",
      ["C04_keys_exact", "C04_quiescent", "C04_count_reports_keys", "C04_keys_reports_keys", "C04_witness"],
      ["C04."],
@@ -110,7 +113,8 @@ prop("C14",
      ["C01.", "C04.", "C12.", "C13.", "C14.", "C05."],
      [fam("pool","P",5000), fam("fine-pool","P",2000)],
      [fam("pool","P",150000), fam("fine-pool","P",60000), fam("scale","P",8,"monitor")],
-     smoke=True)
+     smoke=True,
+     lin=True)
 prop("C15",
      ["C15_callback_panic_like_error", "C15_panic_reaches_caller", "C15_closure_panic", "C15_values_are_those_committed", "C15_still_consistent", "C15_witness"],
      ["C02.", "C04.", "C12.", "C13.", "C15.", "C08."],
@@ -123,7 +127,8 @@ prop("C05",
      ["C02.", "C04.", "C12.", "C05."],
      [fam("seq","H",3000), fam("seq","L",3000), fam("nocancel","H",1500), fam("nocancel","L",1500), fam("scale","L",2,"monitor")],
      [fam("seq","H",100000), fam("seq","L",100000), fam("nocancel","H",40000), fam("nocancel","L",40000), fam("mix","H",20000)],
-     cosim_obs_is_oracle=True)
+     cosim_obs_is_oracle=True,
+     lin=True)
 
 plan = dict(allowed_axioms=[], trusted_base=TRUSTED, assumptions=ASSUME, properties=P)
 json.dump(plan, open(os.path.join(ROOT, "plan.json"), "w"), indent=1)
@@ -161,7 +166,7 @@ manifest = dict(version=1,
     setup_cmd="./setup.sh",
     hooks=dict(guard="cargo feature verif_hooks", enable="harness/Cargo.toml: lockable = { path = \"/repo\", features = [\"verif_hooks\", \"slow_assertions\"] }",
                baseline_off_cmd="cd /repo && cargo nextest run --workspace --no-fail-fast --tool-config-file pb:/w/lib/nextest.toml --profile pb --test-threads 8 --offline",
-               source_commits=["700e6dc", "32e6044"], add_only=True),
+               source_commits=["700e6dc", "32e6044", "64331bd"], add_only=True),
     engines=[dict(name="coq-model+cosim", path="/verif/coq, /verif/ocaml, /verif/harness, /verif/check", serves_properties=sorted(P.keys()),
                   kind_free_text="Coq 8.16 model + theorems; extracted OCaml model co-simulated against traces of the real crate produced by a deterministic-scheduler harness")],
     checks=checks,
